@@ -232,7 +232,12 @@ def check_twogrid_spd(ctx, rec, k):
             ctx.violation('exception %s twogrid u0=%s' % (type(ex).__name__, u0kind), {'case': key, 'error': repr(ex)})
             continue
         ctx.case(key)
-        res = np.linalg.norm(f - A @ u) / np.linalg.norm(f - (A @ (start if u0 is not None else 0 * start)))
+        res0 = np.linalg.norm(f - (A @ (start if u0 is not None else 0 * start)))
+        if res0 == 0:       # started at the exact solution: only the result is judged (the loop then runs to its limit)
+            if np.linalg.norm(f - A @ u) > 1e-12 * np.linalg.norm(f):
+                ctx.violation('twogrid-spd-not-converged u0=%s' % u0kind, {'case': key, 'what': 'exact start, result is not the solution'})
+            continue
+        res = np.linalg.norm(f - A @ u) / res0
         if res > 1e-7 or 'iverg' in out.getvalue() or 'too many' in out.getvalue():
             ctx.violation('twogrid-spd-not-converged u0=%s' % u0kind, {'case': key, 'relres': float(res), 'printed': out.getvalue()})
 
@@ -374,7 +379,7 @@ def run_hier(ctx, hists):
         raise MachineryError('HMarks produced no histories')
     thorough = ctx.thorough
     rng = np.random.RandomState(ctx.seed + 11)
-    pick = sorted(rng.choice(len(hists), size=min(len(hists), 24 if thorough else 8), replace=False).tolist())
+    pick = sorted(rng.choice(len(hists), size=min(len(hists), 60 if thorough else 8), replace=False).tolist())
     pick = sorted(set(pick) | {len(hists) - 1, len(hists) // 2})      # include a 3-level and a mid one
     n0 = 4
     bd1 = [[(0, 0), (0, 1)], [(0, 0)], [], None]
